@@ -45,6 +45,8 @@ func rowsOf(c class) int {
 		return 20
 	case c.Sz == "big":
 		return 65600
+	case c.Sz == "win":
+		return batchSize + 2
 	case c.Kind == "row":
 		return 1
 	}
@@ -97,9 +99,22 @@ type result struct {
 }
 
 var (
-	arcBin  string
-	tmpBase string
+	arcBin    string
+	tmpBase   string
+	batchSize int // wal.recovery_batch_size as resolved by arc's config.Load in the child
 )
+
+// time column (microseconds) of the "win"/"mixedwin" columnar class: ordinary values, except the row that
+// starts the second recovery window (pre-1970) and, as a control, the row after it (1970-02-27)
+func winTimeUS(j int) int64 {
+	switch j {
+	case batchSize:
+		return -1_000_000
+	case batchSize + 1:
+		return 5_000_000_000_000
+	}
+	return 1_700_000_000_000_000 + int64(j)
+}
 
 // ---------------------------------------------------------------- child handling
 
@@ -113,6 +128,7 @@ type child struct {
 func startChild(dir string) (*child, error) {
 	c := exec.Command(arcBin)
 	c.Env = append(os.Environ(), "ARC_VERIF_DIR="+dir, "ARC_VERIF_ROLE=serve")
+	c.Dir = dir // no arc.toml here: config.Load resolves to the defaults
 	in, err := c.StdinPipe()
 	if err != nil {
 		return nil, err
@@ -319,7 +335,11 @@ func columnar(c class, w int, rows []int) map[string]interface{} {
 	var tcol, vcol, fcol, scol, hcol, spcol []interface{}
 	for _, j := range rows {
 		id := rowID(w, j)
-		tcol = append(tcol, tsSeconds(c.Ts, j))
+		if c.Ts == "mixedwin" {
+			tcol = append(tcol, winTimeUS(j))
+		} else {
+			tcol = append(tcol, tsSeconds(c.Ts, j))
+		}
 		vcol = append(vcol, id)
 		fcol = append(fcol, float64(id)+0.5)
 		scol = append(scol, fmt.Sprintf("s%d", id))
@@ -396,7 +416,7 @@ func buildRequest(c class, w int) (request, []int64, error) {
 
 func attrOf(c class) string {
 	switch {
-	case c.Sz == "mid" || c.Sz == "big":
+	case c.Sz == "mid" || c.Sz == "big" || c.Sz == "win":
 		return "rows=" + c.Sz
 	case c.Mk == "int":
 		return "m=int"
@@ -1107,6 +1127,19 @@ func main() {
 		fatal(err)
 	}
 	res := result{KillPoints: map[string]int{}, SigCounts: map[string]int{}}
+	{
+		c := exec.Command(arcBin)
+		c.Env = append(os.Environ(), "ARC_VERIF_DIR=/nonexistent", "ARC_VERIF_ROLE=config")
+		c.Dir = os.TempDir()
+		ob, err := c.Output()
+		var cf struct {
+			N int `json:"recovery_batch_size"`
+		}
+		if err != nil || json.Unmarshal(ob, &cf) != nil || cf.N <= 0 || cf.N+2 >= idStride {
+			fatal(fmt.Errorf("cannot use the child's wal.recovery_batch_size (%v, %q)", err, string(ob)))
+		}
+		batchSize = cf.N
+	}
 	dumpPool = make(chan *child, *workers)
 	for i := 0; i < *workers; i++ {
 		ds, err := startDumpServer()
